@@ -2,8 +2,11 @@
  *   o:N  write N bytes to stdout (lower-case stream), e:N to stderr (upper-case stream)
  *   s:MS sleep, x:N exit with N, k:SIG kill ourselves, i copy stdin to stdout verbatim,
  *   w:F  report cwd, umask and uid into file F as "<cwd> <umask> <uid>\n"
+ *   f:F  fork a helper that holds none of our descriptors and appends one octet to file F every 50 ms for 10 s: a part
+ *        of the job that outlives the process echsx started
  *   z:MS stop ourselves (SIGSTOP); a helper that shares none of our descriptors continues us after MS milliseconds
  * the two streams are deterministic, so a reader can tell loss, duplication and reordering */
+#include <fcntl.h>
 #include <signal.h>
 #include <stdio.h>
 #include <stdlib.h>
@@ -54,6 +57,23 @@ main(int argc, char *argv[])
 			signal((int)v, SIG_DFL);
 			kill(getpid(), (int)v);
 			pause();
+			break;
+		}
+		case 'f': {
+			pid_t h = fork();
+			if (h == 0) {
+				struct timespec ts = {0, 50000000L};
+				for (int fd = 0; fd < 64; fd++) close(fd);
+				for (int k = 0; k < 200; k++) {
+					int fd = open(a + 2, O_WRONLY | O_APPEND | O_CREAT, 0600);
+					if (fd >= 0) {
+						(void)!write(fd, "x", 1);
+						close(fd);
+					}
+					nanosleep(&ts, NULL);
+				}
+				_exit(0);
+			}
 			break;
 		}
 		case 'z': {
